@@ -77,6 +77,55 @@ HARD_LIMIT_ASSERTIONS = 1500      # larger queries go to the z3 command line bin
 Z3_BIN = os.path.join(os.path.dirname(sys.executable), 'z3')
 
 
+_XCHECK = dict(done=0)
+
+
+def cross_check(solver, z3_verdict, n_assertions, acc):
+    """second solver (4.6): re-decide a sample of the LRA queries with cvc5 (Python API, SMT-LIB dump of the very query);
+    a disagreement or an '(error' makes the run inconclusive"""
+    limit = int(os.environ.get('VERIF_XCHECK', '0') or 0)
+    if limit <= 0 or _XCHECK['done'] >= limit or n_assertions > 4000 or z3_verdict not in ('sat', 'unsat'):
+        return
+    # sample: every query of the first few, then thin out
+    _XCHECK['seen'] = _XCHECK.get('seen', 0) + 1
+    if _XCHECK['seen'] > 8 and _XCHECK['seen'] % 7:
+        return
+    try:
+        import cvc5
+    except ImportError:
+        return
+    _XCHECK['done'] += 1
+    t = time.time()
+    try:
+        smt = '(set-logic QF_LRA)\n' + solver.to_smt2()
+        slv = cvc5.Solver()
+        slv.setOption('tlimit-per', '20000')
+        ip = cvc5.InputParser(slv)
+        ip.setStringInput(cvc5.InputLanguage.SMT_LIB_2_6, smt, 'q')
+        sm = ip.getSymbolManager()
+        verdict = 'unknown'
+        while True:
+            c = ip.nextCommand()
+            if c.isNull():
+                break
+            out = str(c.invoke(slv, sm)).strip()
+            if '(error' in out:
+                verdict = 'error'
+                break
+            if out in ('sat', 'unsat', 'unknown'):
+                verdict = out
+    except Exception as e:       # parser / API trouble: inconclusive, never success
+        verdict = 'error'
+    if acc is not None:
+        acc.inc('xcheck_queries'); acc.inc('xcheck_seconds', time.time() - t)
+        if verdict == z3_verdict:
+            acc.inc('xcheck_agree')
+        elif verdict in ('unknown',):
+            acc.inc('xcheck_cvc5_unknown')
+        else:
+            acc.add('xcheck_disagreements', dict(z3=z3_verdict, cvc5=verdict, assertions=n_assertions))
+
+
 def check_with_hard_limit(solver, n_assertions, timeout_s, stats=None):
     """z3 verdict as a string.  z3's own soft timeout is not always honoured inside large simplex runs (observed:
     > 15 min on a satisfiable query with 6e4 equalities), so big queries are decided by the z3 CLI in a child process
@@ -235,6 +284,7 @@ def prove(eng, goals=(), goal_atoms=(), rounds=2, maxdeg=8, extra_hyps=(), use_p
             r = 'unknown'      # the multiplier set was cut off: do not spend solver time on a query that cannot prove the goal
         else:
             r = check_with_hard_limit(s, len(prods) + len(hyps), timeout_ms / 1000.0)
+            cross_check(s, r, len(prods) + len(hyps), acc)
         dt = time.time() - t1
         res = 'proved' if r == 'unsat' else ('unknown' if r == 'unknown' else 'unproved')
         if acc is not None and len(prods) + len(hyps) >= HARD_LIMIT_ASSERTIONS:
@@ -261,8 +311,11 @@ def prove_escalating(eng, goals=(), goal_atoms=(), rounds=(1, 2, 3), acc=None, l
         tmp = Acc()
         res = prove(eng, goals, goal_atoms, rounds=r, acc=tmp, label='x', **kw)
         if acc is not None:
-            for k in ('vc_t_solver', 'vc_t_build', 'vc_products', 'vc_queries'):
+            for k in ('vc_t_solver', 'vc_t_build', 'vc_products', 'vc_queries', 'vc_cli_queries', 'xcheck_queries', 'xcheck_seconds',
+                      'xcheck_agree', 'xcheck_cvc5_unknown'):
                 acc.inc(k, tmp.get(k))
+            for it in tmp.l.get('xcheck_disagreements', []):
+                acc.add('xcheck_disagreements', it)
             if k_ == 0:
                 acc.inc('vc_goals', tmp.get('vc_goals'))
             if tmp.get('x_trivial'):
